@@ -782,31 +782,23 @@ func ruleC19(c *Ctx) {
 }
 
 func endpointFields(t *Terminal, spd Val, field string) map[string]string {
+	// read from the final state of the descriptor: "#" = number of endpoints, then the fields of endpoint 0
 	out := map[string]string{}
-	v, ok := t.finalField(spd, field)
+	rd := newReader(t)
+	eps, ok := rd.elems(rd.field(spd, field))
 	if !ok {
 		return out
 	}
-	sl, ok := v.(*SliceV)
-	if !ok {
+	out["#"] = fmt.Sprint(len(eps))
+	if len(eps) == 0 {
 		return out
 	}
-	arr, ok := sl.X.(*AllocV)
-	if !ok {
-		return out
-	}
-	if p, ok := arr.Type().Underlying().(*types.Pointer); ok {
-		if a, ok := p.Elem().Underlying().(*types.Array); ok {
-			out["#"] = fmt.Sprint(a.Len())
-		}
-	}
-	for _, e := range t.stores() {
-		fa, ok := e.Addr.(*FieldAddrV)
-		if !ok {
-			continue
-		}
-		if ia, ok := fa.X.(*IndexAddrV); ok && ia.X.Key() == arr.Key() && isConstInt(ia.I, 0) {
-			out[fa.Name] = ap(e.Val)
+	for _, name := range []string{"Binding", "Location", "ResponseLocation", "Index"} {
+		if v := rd.field(eps[0], name); v != nil {
+			if c, isC := v.(*ConstV); isC && (c.Key() == `""` || c.Key() == "0") && name != "Index" {
+				continue
+			}
+			out[name] = ap(v)
 		}
 	}
 	return out
